@@ -216,3 +216,9 @@ def replay_call_site(case):
     finally:
         utils.apply_gbs = real
     return {"reproduced": bool(problems), "detail": problems[:4] or "call site behaves as specified", "solver_steps_last_update": len(calls)}
+
+
+def default_cex(name):
+    if name.startswith("call site"):
+        return {"replay": "vf.props.C09:replay_call_site", "case": {}, "cls": {"kind": "GBS call site / stored snapshot deviates"}}
+    return {"replay": "vf.props.replays:c09_apply_gbs", "case": {}, "cls": {"kind": "apply_gbs deviates from floor-and-freeze below chi/n"}}
